@@ -191,9 +191,13 @@ REGISTRY = {
                         'repr(str)/repr(bytes) are modelled (reprCharStr/reprCharBytes) and compared with CPython on every case'],
     },
     'C01': {
-        'theorems': ['PP.C04.sound_pformat', 'PP.C02.lines_join', 'PP.C02.lines_nonempty', 'PP.C01.sorted_perm', 'PP.C01.insertion_order'],
-        'modules': VALUE_MODULES + ['PP.Props.Values'],
-        'sections': [{'name': 'builtin-values', 'run': values_sec('builtin_values_section')}],
+        'theorems': ['PP.C01.output_reads_back', 'PP.C01.canon_reads_back', 'PP.Tok.canon_reads', 'PP.C03.output_tokens', 'PP.Limits.limits_tokens',
+                     'PP.C04.sound_pformat', 'PP.C02.lines_join', 'PP.C02.lines_nonempty', 'PP.C02.unescape_escape', 'PP.C01.sorted_perm',
+                     'PP.C01.insertion_order'],
+        'modules': VALUE_MODULES + ['PP.Props.Values', 'PP.Spec.Tokens', 'PP.Spec.Reader', 'PP.Proofs.Toks', 'PP.Proofs.ToksStr', 'PP.Proofs.ToksComb',
+                                    'PP.Proofs.ToksVal', 'PP.Proofs.ReaderRT', 'PP.Props.C03', 'PP.Props.C01b'],
+        'sections': [{'name': 'builtin-values', 'run': values_sec('builtin_values_section')},
+                     {'name': 'tokens', 'run': values_sec('tokens_section')}],
         'trusted': VALUE_TRUSTED,
         'rule': 'pformat of built-in value trees vs the model (SDoc stream + text), eval oracle with exact types',
     },
